@@ -20,11 +20,21 @@ def hedge(run, cls, ax, x):
     return v, ex
 
 
+def class_set(run, name, in_source, covered, what):
+    """every class the contracts cover must exist (a missing one is a violation: the statement names it); a class the source has IN ADDITION has no
+    contract - nothing is claimed about it: undecided, never an alarm"""
+    missing, extra = sorted(set(covered) - set(in_source)), sorted(set(in_source) - set(covered))
+    if missing or not extra:
+        run.add(static(name, not missing, f"{what} in source {sorted(in_source)}; contracts cover {sorted(covered)}" + (f"; MISSING {missing}" if missing else "")))
+    else:
+        run.add(undecided(name, f"{what} without a contract: {extra} (new classes are outside what this check decides)"))
+
+
 def build(run):
     run.assume("A-REAL", "A-NP", "A-PY", "A-LIFT")
     src = run.src
     concrete = [c for c in src.subclasses("hedge", "Hedge") if c not in ("HedgeLambda", "HedgeFunction")]
-    run.add(static("hedge/classes", set(concrete) == set(C.HEDGES), f"hedges in source {sorted(concrete)}; contracts cover {sorted(C.HEDGES)}"))
+    class_set(run, "hedge/classes", concrete, list(C.HEDGES), "hedges")
     inunit = lambda t: z3.And(xr.fin(t), t.v >= 0, t.v <= 1)
     code = {}
     for cls in C.HEDGES:
